@@ -275,6 +275,38 @@ def build():
     P["H:npids-from_hyperedge_dict"] = lambda: xgi.from_hyperedge_dict(xgi.to_hyperedge_dict(npH()))
     P["H:npids-bipartite-graph"] = lambda: xgi.from_bipartite_graph(xgi.to_bipartite_graph(npH()))
 
+    # ---- existing edges that are *empty* under the IDs the adders will ask for (an empty member set is falsy)
+    def emptyH():
+        H = Hy()
+        H.add_nodes_from([1, 2, 3])
+        H.add_edge([], idx=0, w=1)
+        H.add_edge([1, 2], idx=2)
+        H.remove_node_from_edge(2, 1, remove_empty=False)
+        H.remove_node_from_edge(2, 2, remove_empty=False)
+        H.add_edge([], idx="e")
+        H.add_edge([2, 3])
+        return H
+
+    def emptyD():
+        D = Di()
+        D.add_nodes_from([1, 2, 3])
+        D.add_edge(([], []), idx=0, w=1)
+        D.add_edge(([], []), idx=2)
+        D.add_edge(([], []), idx="e")
+        D.add_edge(([2], [3]))
+        return D
+
+    P["H:empty-edges"] = emptyH
+    P["H:empty-edges-copy"] = lambda: emptyH().copy()
+    P["H:dual-of-isolates"] = lambda: Hy([[1, 2]]).dual() if False else _dual_iso()
+    P["D:empty-edges"] = emptyD
+
+    def _dual_iso():
+        H = Hy()
+        H.add_nodes_from([0, 1, 2])
+        H.add_edge([2, 7], idx=5)
+        return H.dual()  # nodes 0 and 1 are isolated: their dual edges 0 and 1 are empty
+
     def _h_ante():
         H = Hy()
         H.add_node_to_edge(0, 1)
